@@ -69,8 +69,14 @@ def unit_root_models(tier="quick"):
     rw = dict(terms=[(0, -1, 1.0)], const=0.0, shock=True)
     cyc = dict(terms=[(1, -1, 0.6)], const=0.0, shock=True)
     cyc2 = dict(terms=[(1, -1, 0.5), (1, -2, 0.2), (0, 0, 0.1), (0, -1, -0.1)], const=0.0, shock=True)
+    # a unit root WITH drift, the drift coming through a stable variable with a non-zero mean (non-flat steady
+    # state): the constant vector of the solution then has no fixed point, only its stable block has
+    lev = dict(terms=[(0, -1, 1.0), (1, -1, 1.0)], const=0.1, shock=True)
+    gr = dict(terms=[(1, -1, 0.6)], const=0.2, shock=True)
     return [
         S(1, [rw], [dict(terms=[(0, 0, 1.0)], const=0.0, shock=True)], False, "ur_local_level"),
+        S(2, [lev, gr], [dict(terms=[(0, 0, 1.0)], const=0.0, shock=True), dict(terms=[(1, 0, 1.0)], const=0.5, shock=True)], False,
+          "ur_drift_through_stable", flat=False),
         S(2, [rw, cyc], [dict(terms=[(0, 0, 1.0), (1, 0, 1.0)], const=0.0, shock=True)], False, "ur_trend_cycle_one"),
         S(2, [rw, cyc2], [dict(terms=[(0, 0, 1.0), (1, 0, 1.0)], const=0.0, shock=True), dict(terms=[(1, 0, 1.0), (1, -1, 0.5)], const=0.0, shock=False)], False, "ur_trend_cycle_two"),
     ]
@@ -397,7 +403,7 @@ def shard(item, res, ctx):
 
 def run(ctx, total, info):
     shards = []
-    for spec in models(ctx.tier) + unit_root_models(ctx.tier)[: (2 if ctx.quick else 3)]:
+    for spec in models(ctx.tier) + unit_root_models(ctx.tier)[: (3 if ctx.quick else 4)]:
         ny = len(spec.meas)
         maxN = (3 if ny == 2 else 4) if ctx.quick else 4
         for N in range(1, maxN + 1):
